@@ -164,8 +164,9 @@ def show(r):
 
 
 def fname(n):
-    """feature ids -> names; id 7 is the EMPTY string (a legal, if odd, feature name: `features=""` is the request [""])"""
-    return "" if n == 7 else f"f{n}"
+    """feature ids -> names; id 7 is the EMPTY string (a legal, if odd, feature name: `features=""` is the request [""]); ids 5 and 6 differ
+    in letter case only (feature names are compared as they are, in whatever form the request arrives: str, list or tuple)"""
+    return {7: "", 5: "AcmeParser", 6: "acmeparser"}.get(n, f"f{n}")
 
 
 def constructor_case(regs, builder_arg, features_arg, kw, subdefault=None):
@@ -196,6 +197,11 @@ def constructor_case(regs, builder_arg, features_arg, kw, subdefault=None):
     elif builder_arg[0] == "inst":
         barg = extra_cls()
         log.clear()
+    elif builder_arg[0] == "inst-falsy":
+        # an instance that is FALSY (a builder class with __len__, e.g. one that counts the documents it has seen): still "a builder passed
+        # explicitly"
+        barg = type("HB99Sized", (extra_cls,), {"__len__": lambda self: 0})()
+        log.clear()
     else:
         barg = None
     if features_arg[0] == "none":
@@ -219,6 +225,8 @@ def constructor_case(regs, builder_arg, features_arg, kw, subdefault=None):
                 soup = cls("<a>x</a>", features=farg, builder=barg, **kwargs)
             except FeatureNotFound:
                 return "fnf"
+            except Exception as ex:        # the property: FeatureNotFound exactly when the lookup returns nothing - and nothing else
+                return f"raised {type(ex).__name__}"
             ignored = any("Keyword arguments to the BeautifulSoup constructor will be ignored" in str(x.message) for x in w)
         b = soup.builder
         if barg is not None:
@@ -229,7 +237,7 @@ def constructor_case(regs, builder_arg, features_arg, kw, subdefault=None):
             consulted = 1
         inst = 1 if log.get("inst_by_ctor") else 0
         fwd = 1 if (inst and log.get("kwargs", {}).get("verif_token") == 7) or (inst and not kw) else 0
-        if barg is not None and builder_arg[0] == "inst" and b is not barg:
+        if barg is not None and builder_arg[0] in ("inst", "inst-falsy") and b is not barg:
             return "other-instance-used"
         return f"ok {bid} inst={inst} fwd={fwd} warn={1 if ignored else 0} reg={consulted}"
     finally:
@@ -238,7 +246,7 @@ def constructor_case(regs, builder_arg, features_arg, kw, subdefault=None):
 
 
 def model_ctor_line(regs, builder_arg, features_arg, kw, subdefault=None):
-    b = "none" if builder_arg[0] == "none" else f"{builder_arg[0]}:99"
+    b = "none" if builder_arg[0] == "none" else f"{builder_arg[0].replace('-falsy', '')}:99"
     if features_arg[0] == "none":
         f = "none"
     elif features_arg[0] == "str":
@@ -363,10 +371,11 @@ def run(ctx: Ctx):
 
     # constructor
     regsets = [(), ((0,),), ((0, 1),), ((0,), (0, 1)), ((0, 1), (0,)), ((2,),), ((0,), (1,)), ((0, 2), (1, 2), (0, 1, 2)),
-               ((0, 1), (7,)), ((7, 0), (0, 1))]
-    bargs = [("none",), ("cls",), ("inst",)]
+               ((0, 1), (7,)), ((7, 0), (0, 1)), ((5,), (6,)), ((6,), (5,)), ((5,),), ((0, 5), (0, 6), (1,))]
+    bargs = [("none",), ("cls",), ("inst",), ("inst-falsy",)]
     fargs = [("none",), ("str", 0), ("str", 2), ("str", 9), ("list", ()), ("list", (0,)), ("list", (0, 1)), ("list", (1, 2)), ("list", (9,)), ("list", (2, 9)),
-             ("str", 7), ("list", (7,)), ("list", (7, 0)), ("tuple", ()), ("tuple", (0, 1)), ("tuple", (7,))]
+             ("str", 7), ("list", (7,)), ("list", (7, 0)), ("tuple", ()), ("tuple", (0, 1)), ("tuple", (7,)),
+             ("str", 5), ("str", 6), ("list", (5,)), ("tuple", (6,)), ("tuple", (5, 6)), ("list", (0, 5)), ("tuple", (9, 2)), ("tuple", (0, 1, 2))]
     clines, cimpl, ccases = [], [], []
     for regs in regsets:
         for ba in bargs:
